@@ -53,6 +53,10 @@ def run(ctx):
                                common.random_scripts(seed, 500 if quick else 8000, mutate=1, unsupported=0.08))
         scripts += ['coproc (a)>f', 'coproc { a; } > f', 'coproc x (a) >f 2>&1', 'a\ncoproc { b; } >f\nc', 'coproc while a; do b; done <f', 'b; coproc x { a; } 2>f | c',
                     'select x in a b; do c; done >f', 'select x; do c; done <f &', 'time a >f', 'time -p { a; } >f', 'for ((;;)); do a; done >f', 'a | (( 1 )) >f', '[[ a ]] >f && b']
+        # a missing here-document that is NOT at the end of the input (inside a substitution, in the middle of a line)
+        scripts += ['a `b <<E` c', 'a `b <<E`\nc\n', 'a "`b <<-E`" c', 'a $(b <<E) c', 'a <(b <<E) c\nd', 'x=`a <<E`; b', 'a `b <<E\n` c', 'if `a <<E`; then b; fi']
+        for t in [x.rstrip('\n') for x in scripts[-400:] if '`' not in x and '\n' not in x.rstrip('\n') and '<<' not in x and '#' not in x and "'" not in x and '"' not in x and '\\' not in x][:60 if quick else 400]:
+            scripts.append('a `' + t + ' <<NEVER` c'); scripts.append('a $(' + t + ' <<NEVER) c')
         for s in scripts:
             cases.append(('C17single', [], s, [('parse', {}, s), ('single', {}, s)]))
             cases.append(('C17single', [], s, [('parse', dict(proceedonerror=True, strictmode=False), s), ('single', dict(proceedonerror=True, strictmode=False), s)]))
@@ -105,6 +109,8 @@ def run(ctx):
                     if all(c in ' \t' for c in gap) or gap.lstrip(' \t').startswith('\n') or gap.lstrip(' \t').startswith('\\\n'):
                         edits.append((prev_end, ' ')); edits.append((prev_end, '  \t'))
                         if gap[:1] in ' \t': edits.append((prev_end, ' \\\n'))
+                        # one more continuation right next to an existing one
+                        if '\\\n' in gap and gap[:1] in ' \t': edits.append((prev_end + gap.index('\\\n'), '\\\n'))
                     if gap.lstrip(' \t').startswith('\n'):
                         edits.append((prev_end, ' # c'))
                 prev_end = max(prev_end or 0, b); prev_body = body
